@@ -466,6 +466,21 @@ func Thread(r *rand.Rand) *Doc {
 			for j, d := 0, 1+r.Intn(4); j < d; j++ {
 				x.addrs = append(x.addrs, pickAddr(r, true))
 			}
+			if r.Intn(4) == 0 {
+				// the leaf listed twice (documented: the duplicate is removed)
+				x.addrs = append([]uint64{x.addrs[0]}, x.addrs...)
+				feat = append(feat, "threadz.dupleaf")
+			}
+			if r.Intn(4) == 0 {
+				// another thread sitting in exactly the same stack as an earlier one
+				for _, y := range ths {
+					if !y.same {
+						x.addrs = append([]uint64(nil), y.addrs...)
+						feat = append(feat, "threadz.repeated")
+						break
+					}
+				}
+			}
 		}
 		ths = append(ths, x)
 		fmt.Fprintf(&sb, "--- Thread %x (name: t%d/%d) stack: ---\n", 0x7f0000000000+i, i, 100+i)
@@ -554,13 +569,24 @@ func CPU(r *rand.Rand) *Doc {
 	sig := uint64(0x7000 + r.Intn(4))
 	useSig := r.Intn(2) == 0
 	feat := []string{"cpu." + oname, fmt.Sprintf("cpu.w64=%v", w64)}
+	// a bigger profile in which all but a few samples (within the documented margin of 1/32) carry
+	// the signal-handler frame in second position; the few others keep their own second frame
+	outliers := 0
+	if useSig && r.Intn(3) == 0 {
+		n = 32 + r.Intn(90)
+		outliers = r.Intn(n/32 + 1)
+		feat = append(feat, fmt.Sprintf("cpu.sig.outliers=%d", outliers))
+	}
 	for i := 0; i < n; i++ {
 		rc := rec{count: uint64(1 + r.Intn(5))}
 		d := 1 + r.Intn(5)
+		if outliers > 0 || n >= 32 && useSig {
+			d = 2 + r.Intn(4)
+		}
 		for j := 0; j < d; j++ {
 			rc.addrs = append(rc.addrs, uint64(0x1000+r.Intn(64)*4))
 		}
-		if useSig && d > 1 {
+		if useSig && d > 1 && !(n >= 32 && i < outliers) {
 			rc.addrs[1] = sig + 1
 		}
 		if r.Intn(5) == 0 && d > 1 && !useSig {
